@@ -344,3 +344,55 @@ Arguments SReady {A}.
 Arguments SPending {A}.
 Arguments Ready {X} x.
 Arguments Pending {X}.
+Arguments set_curr {A}.
+Arguments set_blocked {A}.
+Arguments set_woken {A}.
+Arguments deliver {A}.
+Arguments wake {A}.
+Arguments wake_all {A}.
+Arguments push_get {A}.
+Arguments mkCache {A}.
+Arguments c_iter {A}.
+Arguments c_items {A}.
+Arguments c_calls {A}.
+Arguments c_cons {A}.
+Arguments cache_new {A}.
+Arguments iter_next {A}.
+Arguments cache_iter_next {A}.
+Arguments cache_step {A}.
+Arguments cache_run {A}.
+Arguments src_items {A}.
+Arguments mkA {A}.
+Arguments src {A}.
+Arguments waiting {A}.
+Arguments items {A}.
+Arguments pending_wakes {A}.
+Arguments cons {A}.
+Arguments n_polls {A}.
+Arguments n_some {A}.
+Arguments n_none {A}.
+Arguments pulled {A}.
+Arguments init {A}.
+Arguments set_cons {A}.
+Arguments set_pending_wakes {A}.
+Arguments set_items {A}.
+Arguments source_poll_next {A}.
+Arguments poll_next_item {A}.
+Arguments poll_next {A}.
+Arguments clear_woken {A}.
+Arguments source_ready {A}.
+Arguments step {A}.
+Arguments run {A}.
+Arguments runnable {A}.
+Arguments fair {A}.
+Arguments all_done {A}.
+Arguments count_fair {A}.
+Arguments pick {A}.
+Arguments fair_run {A}.
+Arguments status_weight {A}.
+Arguments cons_weight {A}.
+Arguments variant_at {A}.
+Arguments variant {A}.
+Arguments request_poll {A}.
+Arguments request_step {A}.
+Arguments request_sync {A}.
